@@ -378,8 +378,8 @@ func checkVisibilityRules(p *core.Program, r *core.Report, rule string) {
 		ok := false
 		inlineOutcome := ""
 		for _, pa := range paths {
-			if len(pa.Lits) == 1 && strings.HasPrefix(pa.Lits[0].Atom, `len(regexp.Regexp.FindStringSubmatch(`+rxDisplay+`,dom.GetAttribute($0,"style"))) <= 1`) && !pa.Lits[0].Val &&
-				strings.HasSuffix(pa.Outcome, `regexp.Regexp.FindStringSubmatch(`+rxDisplay+`,dom.GetAttribute($0,"style"))[1]`) || strings.HasSuffix(pa.Outcome, `regexp.Regexp.FindStringSubmatch(`+rxDisplay+`,dom.GetAttribute($0,"style"))[1])`) {
+			sub := `regexp.Regexp.FindStringSubmatch(` + rxDisplay + `,dom.GetAttribute($0,"style"))[1]`
+			if len(pa.Lits) == 1 && inlineDisplayGiven(pa.Lits[0]) && (strings.HasSuffix(pa.Outcome, sub) || strings.HasSuffix(pa.Outcome, sub+")")) {
 				ok = true
 				inlineOutcome = pa.Outcome
 			}
@@ -392,7 +392,7 @@ func checkVisibilityRules(p *core.Program, r *core.Report, rule string) {
 		for _, t := range []string{"script", "style"} {
 			n, okT := 0, true
 			for _, pa := range consistentWith(paths, "dom.TagName($0)", t) {
-				if len(pa.Lits) > 0 && strings.HasPrefix(pa.Lits[0].Atom, "len(regexp.Regexp.FindStringSubmatch("+rxDisplay+",") && !pa.Lits[0].Val {
+				if len(pa.Lits) > 0 && inlineDisplayGiven(pa.Lits[0]) {
 					continue // inline display given
 				}
 				n++
